@@ -38,6 +38,13 @@ NATIVE_UNITS = {
     "tail_arity_panic": {"file": "src/interpreter/interpreter.rs", "source": "tail_arity.rs",
                          "modpath": "interpreter::interpreter", "test": "verif_native_tail_arity_panic",
                          "role": "witness", "for_fns": ["apply_procedure"]},
+    "lexer_token_witness": {"file": "src/parser/lexer.rs", "source": "lexer_tokens.rs", "modpath": "parser::lexer",
+                            "test": "verif_native_lexer_token_witness", "role": "witness",
+                            "for_fns": ["try_next", "atmosphere", "comment", "normal_identifier", "dot_subsequent",
+                                        "percular_identifier", "quoted_identifier", "string", "number", "digital10",
+                                        "number_suffix", "real", "next", "parse_number", "test_delimiter", "is_identifier_initial"]},
+    "hash_token_known": {"file": "src/parser/lexer.rs", "source": "lexer_tokens.rs", "modpath": "parser::lexer",
+                         "test": "verif_native_hash_token_known", "role": "known", "finding": "hash-token-not-delimited"},
     "complete_witness": {"file": "src/repl.rs", "source": "repl_complete.rs", "modpath": "repl",
                          "test": "verif_native_complete_witness", "role": "witness",
                          "for_fns": ["check_bracket_closed", "witness_caller"]},
@@ -52,6 +59,26 @@ _TAIL_UNVERIFIED = [
 ]
 
 PROPS = {
+    "C06": {
+        "verus": ["lexer_tok"], "kani": [], "native": ["lexer_token_witness", "hash_token_known"],
+        "level": "proof",
+        "explanation": "The lexer half of the reader: every scanner function of Lexer is proved, for texts of any length, against a "
+                       "relation between the text at the start of a token, the token produced and the text left over. Whitespace and "
+                       "`;` comments in front of a token are skipped and nothing else depends on them (try_next's contract mentions the "
+                       "text only through next_start; lemmas leading_whitespace_is_ignored / comment_line_is_ignored); identifiers "
+                       "(ordinary, peculiar, |quoted|) carry exactly the characters they were read from and ordinary / peculiar "
+                       "identifiers and all numbers end only at a delimiter or the end of the text; a string literal's contents are its "
+                       "characters with the mnemonic escapes translated; an integer / ratio token is str::parse of its digits (ratio: "
+                       "denominator not zero), a decimal's literal text is the characters consumed; ( ) ' ` , ,@ #( #u8( #t #f #\\c . map to their tokens.",
+        "unverified": ["the reader proper (parser.rs: nested lists, dotted tails, vector syntax, quote abbreviations -> Datum): generic "
+                       "iterator code, not under contract -- a breakage confined to it is not detected",
+                       "the value of a decimal literal (f32/f64 FromStr at evaluation time) and of str::parse on digits (std)",
+                       "string escapes \\x<hex>; and \\<space> (not translated by this lexer: stated as unspecified in scan_string)",
+                       "#true / #false / character names (#\\space ...): not supported by the lexer"],
+        "assumptions": ["fewer than 2^32 characters (u32 position counters)",
+                        "std::iter::Peekable::next / peek yield / show the head of the remaining input",
+                        "str::parse::<T> is a function of the text (uninterpreted)"],
+    },
     "C03": {
         "verus": ["valref_mut"], "kani": ["valref"], "native": [],
         "level": "other",
